@@ -77,7 +77,7 @@ func walkStamps(n *syntax.RegexNode, root bool, out *[]int64) {
 	if isBoundary(n.T) {
 		*out = append(*out, 0, o)
 	} else if n.T == syntax.NtCapture && !root {
-		*out = append(*out, 1, o)
+		*out = append(*out, 1, o, int64(n.M))
 	} else if n.T == syntax.NtRef {
 		*out = append(*out, 2, o)
 	}
@@ -154,7 +154,7 @@ func legC18Stamps(c *Ctx) {
 			}
 			out = []int64{0}
 			walkStamps(tree.Root, true, &out)
-			nodes += (len(out) - 1) / 2
+			nodes += (len(out) - 1) / 3
 		}()
 		if out == nil {
 			continue
@@ -174,7 +174,7 @@ func legC18Stamps(c *Ctx) {
 	c.Gate("inline option constructs generated", withOpt > n/3)
 	c.Gate("hash comments generated", withHash > n/20)
 	c.Gate("errors are a minority", errs < n/2)
-	c.Gate("stamped nodes observed", nodes > 2*n)
+	c.Gate("stamped nodes observed", nodes > n)
 }
 
 // ---------- pattern generator for the spelling legs ----------
